@@ -426,4 +426,95 @@ def eventsOutcome (cfg : Cfg) (now : Int) (origin : String) (slaveHash : Key) (p
   else if listened then .listeningEnabled
   else .accepted
 
+/-! ### Header TEXT → decision: the decoder as a function of the text
+
+`prepare` takes the header text `hdr` and the decoded token content `dec` as two parameters. In the code the second is
+a function of the first: `jwt.decode(token, …)` works on group 1 of the bearer expression. `Decoder` makes that tie
+explicit; the real decoder (PyJWT + base64 + json + hmac, run by the harness with the standard library) is *one*
+inhabitant, the theorems quantify over all of them. (`Tok.sigKey` too is a function of the text: the key in play under
+which the signature segment verifies.) -/
+
+/-- From the token text (group 1 of the bearer expression, code points) to the decoded token content;
+`none` = the header or the claims segment is not a JSON object. -/
+structure Decoder where
+  decode : List Nat → Option Tok
+
+/-- Group 1 of `_AUTH_TOKEN_RE` (what `parse_auth_header` hands to `jwt.decode`); `[]` when the text does not match
+(then no decoding takes place). -/
+def tokenPart (hdr : List Nat) : List Nat := (matchBearer hdr).getD []
+
+/-- `APIHandler.prepare` as a function of the header text alone. -/
+def prepareText (D : Decoder) (cfg : Cfg) (now : Int) (origin : String) (hs : Hashes) (hdr : List Nat) : Option User :=
+  prepare cfg now origin hs hdr (D.decode (tokenPart hdr))
+
+/-- `post_slave_device_events`' authentication as a function of the header text alone. -/
+def deviceAuthText (D : Decoder) (cfg : Cfg) (now : Int) (origin : String) (slaveHash : Key) (hdr : List Nat) : Bool :=
+  deviceAuth cfg now origin slaveHash hdr (D.decode (tokenPart hdr))
+
+/-! ### What the hub returns about passwords
+
+* `GET /device` → `core.device.attrs.to_json()`: the attributes `admin_password`, `normal_password`,
+  `viewonly_password` through their getter `attr_get_password(which)` =
+  `['set', ''][password_hash == EMPTY_PASSWORD_HASH]` (attrs.py 114-117); the `*_password_hash` module attributes are
+  not attribute definitions and are not part of the document.
+* `PATCH /device`, `PUT /device` → `None` (204, no body).
+
+Only the password-related fields of the document are modelled (the other attributes do not depend on the hashes). -/
+
+/-- `attr_get_password`. -/
+def pwText (emp : Key) (k : Key) : String := if k = emp then "" else "set"
+
+def User.pwField : User → String
+  | .admin => "admin_password"
+  | .normal => "normal_password"
+  | .viewonly => "viewonly_password"
+
+/-- The password-related fields of the `GET /device` document: field name ↦ text. -/
+def deviceDoc (emp : Key) (d : Dev) : List (String × String) :=
+  [(User.admin.pwField, pwText emp d.mem.admin),
+   (User.normal.pwField, pwText emp d.mem.normal),
+   (User.viewonly.pwField, pwText emp d.mem.viewonly)]
+
+/-- The `/device` requests. `patch u pw`: `PATCH /device {"<u>_password": pw}` (clear text). -/
+inductive DevReq
+  | get
+  | patch (u : User) (pw : String)
+  | put
+deriving DecidableEq, Repr
+
+/-- Password-related content of the reply body to a `/device` request answered in state `d`
+(`PATCH`/`PUT`: the state after the change; they have no body at all). -/
+def deviceReply (emp : Key) (d : Dev) : DevReq → List (String × String)
+  | .get => deviceDoc emp d
+  | .patch _ _ => []
+  | .put => []
+
+/-- A hub life told with clear-text passwords (the model proper only ever sees their hashes). -/
+inductive PwOp
+  | set (u : User) (pw : String)      -- PATCH /device {"<u>_password": pw}
+  | restart
+  | put
+  | slaveSet (pw : String)            -- forwarded PATCH /device {"admin_password": pw} of the slave
+deriving DecidableEq, Repr
+
+/-- The operation the model sees, given the hash function (`sha256(·).hexdigest()`, abstract). -/
+def PwOp.toHOp (H : String → Key) : PwOp → HOp
+  | .set u pw => .dev (.set u (H pw))
+  | .restart => .dev .restart
+  | .put => .dev .put
+  | .slaveSet pw => .slaveSet (H pw)
+
+/-- Every password ever submitted during the life. -/
+def PwOp.passwords : List PwOp → List String
+  | [] => []
+  | .set _ pw :: rest => pw :: PwOp.passwords rest
+  | .slaveSet pw :: rest => pw :: PwOp.passwords rest
+  | _ :: rest => PwOp.passwords rest
+
+def Hashes.toList (h : Hashes) : List Key := [h.admin, h.normal, h.viewonly]
+
+/-- Every hash a hub state holds: in memory, in the persisted record, for its slave. -/
+def Hub.hashes (h : Hub) : List Key :=
+  h.dev.mem.toList ++ (match h.dev.disk with | none => [] | some r => r.toList) ++ [h.slave]
+
 end QtVerif.Auth
